@@ -141,3 +141,70 @@ Record emu_rel (t : T.term) (r : term) : Prop := mkEmuRel {
 Definition vaxis_modes (t : T.term) : bool :=
   T.m_awm (T.t_md t) && negb (T.m_irm (T.t_md t)) && negb (T.cs_ss (T.t_cs t)) &&
   (T.des_of (T.t_cs t) =? 0) && (T.t_top t =? 0) && (T.t_bot t =? T.height t - 1).
+
+(* ------------------------------------------------------------------ decidable forms, for the checks *)
+
+Definition fitsb (tw : list Z -> Z) (r : term) (k : tok) : bool :=
+  match k with
+  | KText g => (1 <=? tw g) && (tm_col r + tw g <=? tm_cols r)
+  | KSpace => tm_col r + 1 <=? tm_cols r
+  | _ => true
+  end.
+
+Fixpoint toks_okb (tw : list Z -> Z) (r : term) (ks : list tok) : bool :=
+  match ks with
+  | [] => true
+  | k :: rest => allowed term_caps k && tok_ok k && fitsb tw r k && toks_okb tw (interp1 tw r k) rest
+  end.
+
+(* the side condition of the simulation theorem, evaluated on every frame of an observed
+   history: the reference terminal is run on the model's tokens (which the mismatch check ties
+   to what the real Vaxis wrote) from a terminal about which nothing is known *)
+Fixpoint side_holds (tw : list Z -> Z) (s : vstate) (r : term) (fs : list eframe) : bool :=
+  match fs with
+  | [] => true
+  | f :: rest =>
+      let s1 := fold_left apply_op (ef_ops f) s in
+      if grid_ok tw tw term_caps (v_next s1) then
+        let '(s', o) := do_frame s (ef_ops f) (ef_end f) in
+        toks_okb tw r o && side_holds tw s' (compact (interp tw r o)) rest
+      else true
+  end.
+
+Definition c12_side_holds (c : ecase) : bool :=
+  side_holds (lookup_w (e_widths c)) (vinit term_caps (e_rows c) (e_cols c))
+             (term_unknown (e_rows c) (e_cols c)) (e_frames c).
+
+(* the emulator model run on the model's tokens of every frame: its grid and cursor satisfy the
+   predicate evaluated on the real emulator (start state: New(), first resize, cursor hidden) *)
+Fixpoint model_holds (tw : list Z -> Z) (rows cols : Z) (s : vstate) (t : T.term) (fs : list eframe) : bool :=
+  match fs with
+  | [] => true
+  | f :: rest =>
+      let s1 := fold_left apply_op (ef_ops f) s in
+      if grid_ok tw tw term_caps (v_next s1) then
+        let '(s', o) := do_frame s (ef_ops f) (ef_end f) in
+        match emu_toks tw t o with
+        | T.TOk t' =>
+            grid_shows term_caps (v_next s1) (grid_of t') && cursor_shows rows cols (v_cnext s1) (ecursor_of t') &&
+            model_holds tw rows cols s' t' rest
+        | _ => false
+        end
+      else true
+  end.
+
+Definition emu_start (cols rows : Z) : T.term :=
+  match T.term_start cols rows with
+  | T.TOk t => T.set_md t (T.md_tcem (T.t_md t) false)
+  | _ => T.term_new
+  end.
+
+Definition c12_model_holds (c : ecase) : bool :=
+  model_holds (lookup_w (e_widths c)) (e_rows c) (e_cols c) (vinit term_caps (e_rows c) (e_cols c))
+              (emu_start (e_cols c) (e_rows c)) (e_frames c).
+
+(* violations of C12 on one observed history: the property on the real emulator's grid, cursor
+   and Draw output (EmuSpec.c12_holds), the side condition of the proof, and the emulator
+   model on the same tokens *)
+Definition c12_violations_all (cases : list ecase) : list Z :=
+  bad_indices (fun c => negb (c12_holds c && c12_side_holds c && c12_model_holds c)) cases.
